@@ -7,7 +7,7 @@
    events [tr] (failed connection acquisitions and attempts) and returns [r].
    All theorems quantify over EVERY plan and EVERY outcome stream of any length. *)
 From SV Require Import Base.Prelude Model.Retry Model.Fiber.
-From SV Require Import Proofs.Retry_proofs Proofs.Fiber_proofs Proofs.C06_proofs.
+From SV Require Import Proofs.Retry_proofs Proofs.Fiber_proofs Proofs.C06_proofs Proofs.C06_d4_proofs.
 From SV Require Import Model.E2EAttempts Proofs.E2EAttempts_proofs.
 Open Scope Z_scope.
 
@@ -575,9 +575,9 @@ Proof. exact single_iff. Qed.
    cut nodes).  With C06_e2e_run_iff: for the observation of a finished run on [plan], the certificate
    (plan, outs_of_trace tr) is accepted. *)
 Theorem C06_canonical_outs : forall p idem cl0 plan outs tr r,
-  fiber p idem cl0 plan outs = (tr, r) -> r <> RPending ->
+  fiber p idem cl0 plan outs = (tr, r) ->
   fiber p idem cl0 plan (outs_of_trace tr) = (tr, r).
-Proof. exact fiber_canonical_outs. Qed.
+Proof. exact fiber_canonical_outs_any. Qed.
 
 (* Cutting a fiber short -- the client-side timeout dropping the runner, `execute` dropping a
    speculative fiber -- adds no attempt: a pending run is a PREFIX of every run on a longer outcome
@@ -719,3 +719,117 @@ Print Assumptions C06_e2e_gate.
 Print Assumptions C06_e2e_fibers.
 Print Assumptions C06_e2e_match.
 Print Assumptions C06_e2e_prop_frames.
+
+(* ---- Deepening round 4 (proof only; Proofs/C06_d4_proofs.v) -------------------------------------- *)
+
+(* What the `viol` predicate of the hook tie says, as a proposition (soundness AND completeness of the
+   boolean the driver evaluates): [resend_ok p idem tr] holds iff EVERY event of the trace that is
+   followed by another one is a failed connection acquisition or a FAILED attempt -- never a
+   successful one -- whose error is in the safe set unless the request is idempotent and, under
+   Default, whose consistency is not serial.  ([resend_step], Proofs/C06_d4_proofs.v, written out.) *)
+Theorem C06_resend_ok_iff : forall p idem tr,
+  resend_ok p idem tr = true <->
+  (forall pre ev nxt post, tr = pre ++ ev :: nxt :: post ->
+     match ev with
+     | EvConnFail _ => True
+     | EvAttempt _ _ AOk => False
+     | EvAttempt _ c (AErr e _) =>
+         (idem = true \/ safe_errorb e = true) /\ (p = PDefault -> is_serial c = false)
+     end).
+Proof. exact resend_ok_iff. Qed.
+
+(* ... and [prop_trace_ok] is that plus the bound on the number of events *)
+Theorem C06_trace_prop_ok_iff : forall p idem nplan tr,
+  prop_trace_ok p idem nplan tr = true <->
+  (forall pre ev nxt post, tr = pre ++ ev :: nxt :: post ->
+     match ev with
+     | EvConnFail _ => True
+     | EvAttempt _ _ AOk => False
+     | EvAttempt _ c (AErr e _) =>
+         (idem = true \/ safe_errorb e = true) /\ (p = PDefault -> is_serial c = false)
+     end) /\
+  (List.length tr <= nplan + same_target_budget p)%nat.
+Proof. exact prop_trace_ok_iff. Qed.
+
+Example C06_ex_resend_ok :
+  resend_ok PDefault false [EvConnFail 0%N; EvAttempt 1%N CQuorum (AErr ex_unavail (RetryNextTarget None));
+                            EvAttempt 2%N CQuorum AOk] = true /\
+  resend_ok PDefault false [EvAttempt 1%N CQuorum (AErr (EDbError DbOverloaded) (RetryNextTarget None));
+                            EvAttempt 2%N CQuorum AOk] = false /\
+  resend_ok PDefault true [EvAttempt 1%N CQuorum (AErr (EDbError DbOverloaded) (RetryNextTarget None));
+                           EvAttempt 2%N CQuorum AOk] = true /\
+  resend_ok PDefault true [EvAttempt 1%N CSerial (AErr ex_unavail (RetryNextTarget None));
+                           EvAttempt 2%N CSerial AOk] = false /\
+  resend_ok PDowngrading true [EvAttempt 1%N CSerial (AErr ex_unavail (RetryNextTarget None));
+                               EvAttempt 2%N CSerial AOk] = true /\
+  resend_ok PDefault true [EvAttempt 1%N CQuorum AOk; EvAttempt 2%N CQuorum AOk] = false.
+Proof. vm_compute. repeat split; reflexivity. Qed.
+
+(* Frame statement for the loop: the part of the plan a run never reached is irrelevant.  A run that
+   did NOT end because the plan ran out -- it is still looping, or it ended with a success, an ignored
+   write error, or a DontRetry decision (its last event) -- is, event for event and with the same
+   result, the run on every EXTENSION of the plan.  (The fact the third deepening round named as missing
+   for a search-completeness argument: "the unvisited tail of the plan is irrelevant for a run that
+   ended by a terminal decision".)  The premise is needed: C06_ex_plan_tail, last conjunct. *)
+Theorem C06_plan_tail : forall p idem cl0 plan outs tr r,
+  fiber p idem cl0 plan outs = (tr, r) ->
+  (r = RPending \/ (exists t, r = RCompleted t) \/ (exists t, r = RIgnoredWriteError t)
+   \/ (exists pre t c e, tr = pre ++ [EvAttempt t c (AErr e DontRetry)])) ->
+  forall extra, fiber p idem cl0 (plan ++ extra) outs = (tr, r).
+Proof. exact fiber_plan_tail. Qed.
+
+Example C06_ex_plan_tail :
+  fiber PDefault false CQuorum [1; 2]%N [OError ex_unavail; OError (EDbError DbOverloaded); OSuccess]
+  = ([EvAttempt 1%N CQuorum (AErr ex_unavail (RetryNextTarget None));
+      EvAttempt 2%N CQuorum (AErr (EDbError DbOverloaded) DontRetry)],
+     RFailed (LAttempt (EDbError DbOverloaded))) /\
+  fiber PDefault false CQuorum ([1; 2] ++ [3; 4])%N [OError ex_unavail; OError (EDbError DbOverloaded); OSuccess]
+  = fiber PDefault false CQuorum [1; 2]%N [OError ex_unavail; OError (EDbError DbOverloaded); OSuccess] /\
+  fiber PDefault false CQuorum [1]%N [OError ex_unavail; OSuccess]
+  = ([EvAttempt 1%N CQuorum (AErr ex_unavail (RetryNextTarget None))], RFailed (LAttempt ex_unavail)) /\
+  fiber PDefault false CQuorum ([1] ++ [2])%N [OError ex_unavail; OSuccess]
+  = ([EvAttempt 1%N CQuorum (AErr ex_unavail (RetryNextTarget None)); EvAttempt 2%N CQuorum AOk], RCompleted 2%N).
+Proof. vm_compute. repeat split; reflexivity. Qed.
+
+(* WHICH traces are runs of the model: [tr], [r] is the output of the loop on [plan] for SOME outcome
+   stream if and only if
+     - the trace walks the plan as the recorded decisions say and [r] is the result its end prescribes
+       ([follow], the predicate of C06_followed), and
+     - [decided] (Proofs/C06_d4_proofs.v): every attempt used the consistency current at that point
+       (the request's, replaced by whatever a decision carried) and every recorded decision is the one
+       ONE session of the policy -- created fresh, fed with the failed attempts in order (error, the
+       request's idempotence, that attempt's consistency) -- takes.
+   So C06_followed + C06_provenance_history + C06_first_cl / C06_cl_carried together are not only
+   consequences of being a run: they characterise the runs.  The stream is the one read off the trace
+   (C06_canonical_outs, which therefore holds for pending runs too -- its premise is gone). *)
+Theorem C06_run_iff : forall p idem cl0 plan tr r,
+  (exists outs, fiber p idem cl0 plan outs = (tr, r)) <->
+  (follow plan None tr = Some r /\ decided idem (new_session p) cl0 tr).
+Proof. exact fiber_run_characterised. Qed.
+
+Example C06_ex_run_iff :
+  (let tr := [EvConnFail 0%N; EvAttempt 1%N CQuorum (AErr ex_unavail (RetryNextTarget None));
+              EvAttempt 2%N CQuorum AOk] in
+   follow [0; 1; 2; 3]%N None tr = Some (RCompleted 2%N) /\ decided false (new_session PDefault) CQuorum tr) /\
+  (* walks the plan, but the recorded decision is not the session's: not a run *)
+  (let tr := [EvAttempt 1%N CQuorum (AErr (EDbError DbOverloaded) (RetryNextTarget None));
+              EvAttempt 2%N CQuorum AOk] in
+   follow [1; 2]%N None tr = Some (RCompleted 2%N) /\
+   ~ exists outs, fiber PDefault false CQuorum [1; 2]%N outs = (tr, RCompleted 2%N)) /\
+  (* the session's decisions, but the second attempt goes to the wrong target: not a run *)
+  (let tr := [EvAttempt 1%N CQuorum (AErr ex_unavail (RetryNextTarget None)); EvAttempt 1%N CQuorum AOk] in
+   decided false (new_session PDefault) CQuorum tr /\
+   ~ exists outs, fiber PDefault false CQuorum [1; 2]%N outs = (tr, RCompleted 1%N)).
+Proof.
+  split; [|split].
+  - vm_compute. repeat split; reflexivity.
+  - cbv zeta. split; [reflexivity|]. intros H. apply C06_run_iff in H. destruct H as [_ H].
+    vm_compute in H. destruct H as [_ [H _]]. discriminate H.
+  - cbv zeta. split; [vm_compute; repeat split; reflexivity|]. intros H. apply C06_run_iff in H.
+    destruct H as [H _]. vm_compute in H. discriminate H.
+Qed.
+
+Print Assumptions C06_resend_ok_iff.
+Print Assumptions C06_trace_prop_ok_iff.
+Print Assumptions C06_plan_tail.
+Print Assumptions C06_run_iff.
